@@ -82,7 +82,7 @@ CHECKS = {
             "the scaled build differs from the shipped source only in one constant; real-constant coverage is the boundary sweep, not all files; lines+newline < maxEntrySize.",
             "DESIGN.md §4 C20", "E1-stateless"),
     "C14": ("fault_enumeration",
-            "exhaustive enumeration of crash points: a real SIGKILL (strace fault injection) at every file-system call of every save, plus explicit-state exploration of a power-loss model over the recorded syscall log (prefix x surviving unsynced data x lost trailing renames x torn writes), the model validated against every real kill",
+            "exhaustive enumeration of crash points (plus a free-running race-detector pass over two concurrent configuration saves): a real SIGKILL (strace fault injection) at every file-system call of every save, plus explicit-state exploration of a power-loss model over the recorded syscall log (prefix x surviving unsynced data x lost trailing renames x torn writes), the model validated against every real kill",
             "112 scenarios (quick): real config.write, the loader's schema-upgrade rewrite, dhcpd dbStore, filter refresh (successful and failing mid-download), set_url (download succeeds / breaks), and for each of the three writers saves that fail because no file may grow beyond half / all but one byte of its size (RLIMIT_FSIZE) x sizes {min, 4095, 4096, 4097, 1 MiB; thorough + 32 MiB} x destination present/absent x temp-file placement, two successive saves each. Every kill point leaves the destination byte-equal to the complete old or new version; every modelled crash state (prefix, surviving data operations since the last fsync, lost trailing namespace operations, write torn at 6 offsets) satisfies the same; a failed save (broken download, write fault) leaves the old version at every such point and afterwards.",
             "real kills land on syscall boundaries; torn writes and lost unsynced data exist only in the log model, which assumes rename atomicity and ordered metadata; atomicity (old or new), not durability, is demanded.",
             "DESIGN.md §2.5, §4 C14", "E3"),
